@@ -176,6 +176,7 @@ PROPS["C12"] = {
 PROPS["C13"] = {
     "level": "proof",
     "quick": ["hkdf.expand.sm", "hkdf.oneshot.cap", "hkdf.extract.u"] + [n for n in JOBS if n.startswith(("hkdf.step.grid.", "hkdf.extract.grid."))],
+    "thorough": ["hkdf.expand.sm", "hkdf.oneshot.cap", "hkdf.extract.u"] + [n for n in JOBS if n.startswith(("hkdf.step.grid.", "hkdf.extract.grid.", "hkdf.step.gridt."))],
     "campaign": native.lib_campaign("hkdf"),
     "text": "unbounded: hkdf_expand state machine from an arbitrary valid (counter, posn) for every outlen (loop contract): -1 iff the request passes byte 8160, served bytes advance by exactly outlen capped at 8160, zero fill beyond, one HMAC per new block and, for every block number n and every infolen, the block protocol T(n) = HMAC(PRK, T(n-1) (n > 1) || info || n) stored as the current block, counter wrap 255 -> 0 terminal; extract for every keylen/saltlen = HMAC(salt, IKM) into PRK, counter 1; one-shot: refuses exactly outlen > 8160 and then writes nothing / derives nothing, else extract + one expand. Bounded: expand step == RFC 5869 recurrence from an abstract state (PRK, T(n-1), n, posn) and extract == HMAC(salt or 32 zeros, key) over an arbitrary hash function.",
     "note": L2NOTE + "Step grid: n in {1,2,3,7,200,254}, posn in {1,17,20,32}, outlen up to 70, infolen up to 20; extract grid: 6 (keylen, saltlen) pairs. In the state-machine proof the HMAC API is a frame-only stub and memcpy/memset into the unbounded output are modelled at one arbitrary ghost index (stubs/mem*_ghost.c).",
@@ -185,7 +186,8 @@ PROPS["C13"] = {
 
 PROPS["C14"] = {
     "level": "proof",
-    "quick": [n for n in JOBS if n.startswith("pbkdf2.")],
+    "quick": [n for n in JOBS if n.startswith("pbkdf2.") and not n.startswith("pbkdf2.gridt.")],
+    "thorough": [n for n in JOBS if n.startswith("pbkdf2.")],
     "campaign": native.lib_campaign("pbkdf2"),
     "text": "unbounded shape: block loop for every outlen (loop contract): block i is derived from salt || INT32BE(i) at every block, ceil(outlen/32) F evaluations, exactly outlen bytes written (exact-size object, last partial block through a local buffer); PRF-chain loop for every count (loop contract): exactly max(count,1) PRF evaluations per block. Bounded: end-to-end output == RFC 8018 over RFC 2104 over an arbitrary hash function on a grid of (passwordlen, saltlen, count, outlen).",
     "note": L2NOTE + "Grid: (8,4,1,32),(5,8,2,33),(64,8,3,1),(65,0,1,40),(0,0,0,31),(24,36,2,64),(63,5,2,0),(9,20,2,70). The block-loop proof fixes count to 0 and 1 (the chain code then folds away; the chain loop is closed separately for every count at outlen 40); in the shape proofs the HMAC API is a frame-only stub and PRF outputs landing in the unbounded output buffer are modelled at one arbitrary ghost index.",
@@ -198,11 +200,13 @@ for n, j in JOBS.items():
         j["replay"] = native.lib_replay("prng")
     if n.startswith("trng."):
         j["replay"] = native.trng_replay
-PRNG_FN = [n for n in JOBS if n.startswith(("prng.generate.fn", "prng.ops.fn"))]
+PRNG_FN = [n for n in JOBS if n.startswith(("prng.generate.fn.", "prng.ops.fn."))]
+PRNG_FNT = [n for n in JOBS if n.startswith("prng.generate.fnt.")]
 PRNG_BUDGET = ["prng.generate.budget", "prng.set_limit", "prng.feed.budget", "prng.reseed.budget", "prng.init.budget"]
 PROPS["C15"] = {
     "level": "proof",
     "quick": PRNG_FN + ["prng.generate.budget", "prng.feed.proto", "prng.reseed.proto", "prng.init.proto"],
+    "thorough": PRNG_FN + PRNG_FNT + ["prng.generate.budget", "prng.feed.proto", "prng.reseed.proto", "prng.init.proto"],
     "campaign": native.lib_campaign("prng"),
     "text": "per operation, from an arbitrary valid state (V, C symbolic), real tinyjambu-prng.c over the hash API's contract == documented Hash_DRBG: generate: each block = Hash(V), then V += Hash(3||V) + C + counter (256-bit big-endian add), counter + 1, automatic reseed exactly when counter > limit, entropy requests exactly there; feed: V' = Hash_df(1||V||data), C' = Hash_df(0||V'); reseed: V' = Hash_df(1||V||E), E = old V overwritten by the delivered bytes; instantiate: V = Hash_df(entropy||custom). Loop shape of generate for every size: prng.generate.budget (unbounded). Derivation PROTOCOL of feed / reseed / instantiate for every data length and every delivery count (prng.*.proto, unbounded): Hash_df header, marker, old V, data; C from the new V; counters.",
     "note": L2NOTE + "Sizes: generate {0,1,32,33,40,64,70} x (counter, limit, delivery) classes; feed {0,5,40}; deliveries {0,7,13,31,32,33,40}; custom {0,3,9}. Determinism over whole call histories is the representation-invariant meta-step (each operation verified from every valid state), stated, not checked by the tool.",
